@@ -125,6 +125,18 @@ MUTATIONS = {
         ["C16", "C05"],
         [("flox/core.py", "                if sort:\n                    ex = np.sort(ex)\n", "")],
     ),
+    "offset_labels_keep_missing": (
+        ["C08"],
+        [("flox/core.py", "    offset[labels == -1] = -1\n", "")],
+    ),
+    "axis_sort_fix_reverted": (
+        ["C08"],
+        [("flox/core.py", "axis_ = tuple(sorted(normalize_axis_tuple(axis, array.ndim)))", "axis_ = normalize_axis_tuple(axis, array.ndim)")],
+    ),
+    "auto_method_reindex_fix_reverted": (
+        ["C08", "C02"],
+        [("flox/core.py", "            and reindex.blockwise is True\n", "            and reindex.blockwise is None\n")],
+    ),
     "nanmin_combine_min": (
         ["C04"],
         [("flox/aggregations.py", '    chunk="nanmin",\n    combine="nanmin",', '    chunk="nanmin",\n    combine="min",')],
